@@ -103,7 +103,7 @@ func runNativeFuzz(r *runner) {
 			if len(c.Args["data"]) > 4096 {
 				return nil
 			}
-			return []string{q(argb(c, "data")), fmt.Sprintf("uint8(%d)", atoi(c.Args["chunk"]))}
+			return []string{q(argb(c, "data")), fmt.Sprintf("uint8(%d)", atoi(c.Args["chunk"])%256)}
 		}},
 	}
 	names := make([]string, 0, len(seeds))
@@ -174,6 +174,7 @@ func runNativeFuzz(r *runner) {
 		}
 		if cerr != nil && execs == 0 {
 			r.res.Note("native fuzzing: " + name + " did not run: " + lastLines(string(outb), 4))
+			r.res.Disagree("harness-selfcheck", name, "every native fuzz target runs", lastLines(string(outb), 4))
 		}
 	}
 	// what the targets recorded is judged here by the ordinary monitor
